@@ -27,14 +27,14 @@ func TestMain(m *testing.M) {
 	ev.MustHit("noncanon:long-form-short-len", "noncanon:leading-zero-len", "noncanon:wrapped-single-byte",
 		"noncanon:truncated", "noncanon:trailing", "noncanon:huge-len", "noncanon:int-leading-zero",
 		"api:DecodeBytes", "api:Stream", "api:Split", "api:CountValues", "api:Decode(reader)",
-		"type:Header", "type:Transaction", "type:Receipt", "type:Log", "type:Account", "type:Block", "type:struct",
+		"type:Header", "type:Transaction", "type:Receipt", "type:Log", "type:Account", "type:Block", "type:struct", "recursive:nested",
 		"accepted", "rejected", "nesting>=2", "alloc-measured")
 	ev.Main(m, ev.Config{
 		Property: "C11",
 		Level:    "exploration",
 		Rule: "cases: (a) every byte string up to length 4 (quick) / 5 (thorough) over a 15-symbol boundary alphabet, enumerated; " +
 			"(b) rapid-generated abstract items, their canonical encodings and single-header non-canonical re-encodings (long form for short length, leading-zero length, wrapped single byte, truncation, trailing byte, huge declared length); " +
-			"(c) rapid-generated Go values of every supported kind and every consensus type (Header, Transaction, Block, Receipt, Log, Account). " +
+			"(c) rapid-generated Go values of every supported kind and every consensus type (Header, Transaction, Block, Receipt, Log, Account), and trees of four recursive type families (struct-first, slice-first, pointer, mutually recursive). " +
 			"non-trivial = a near-miss (differs from a canonical encoding in one header) or an item with nesting >= 2 or a typed value; distinct by hash of the input bytes + target name",
 		Assumptions: []string{
 			"refrlp (harness/ref/refrlp) is a correct strict RLP codec (checked against the grammar and unit vectors)",
